@@ -181,6 +181,15 @@ embedded between ordinary operations; decoder-only token soups. Non-trivial = at
             Err((site, _msg)) => { c.count("soup.panic"); c.corr(format!("dec_content {}", hex_tok(&inp)), "panic".into()); let _ = site; }
         }
     }
+    // ---- state carried from one call to the next: after all the failing decodes above (deep nesting, truncated
+    // ---- arrays and dictionaries, soups) on this very thread, ordinary content must still round-trip
+    for i in 0..c.n(200, 2000) {
+        let Some(mut r) = c.case("after_failures", i) else { continue };
+        if i % 20 == 0 { for d in [40usize, 129, 300] { let mut o = vec![]; for _ in 0..d { o.extend_from_slice(*r.pick(&[&b"["[..], b"<</A "])); } let _ = dec_reply(&o); } }
+        let k = 1 + r.usize(4);
+        let ops: Vec<Operation> = (0..k).map(|_| { let m = 1 + r.usize(3); Operation::new(&gen_operator(&mut r), (0..m).map(|_| gen_operand(&mut r)).collect()) }).collect();
+        check_ops(c, &ops, false);
+    }
 }
 
 fn check_ops(c: &mut Ctx, ops: &[Operation], sample: bool) {
